@@ -3,13 +3,14 @@ from lib import vf, e3
 from checks import scen
 
 E2FN = ['h_lock', 'h_rlock', 'h_trylock', 'h_rtrylock', 'h_unlock', 'h_runlock', 'h_unlock_nowake', 'h_mu_wait', 'h_cv_wait', 'h_cv_signal']
-QUICK = ['e2_%s_U2_R1' % f for f in E2FN]
-THOROUGH = QUICK + ['e2_%s_U3_R1' % f for f in E2FN if f not in ('h_mu_wait', 'h_cv_wait')]
+QUICK = ['e2_%s_U2_R1' % f for f in E2FN if f not in ('h_mu_wait', 'h_cv_wait')] + ['mu_w_r_R3', 'cv_plain_siginside_R3']
+THOROUGH = ['e2_h_mu_wait_U2_R1', 'e2_h_cv_wait_U2_R1'] + ['e2_%s_U3_R1' % f for f in E2FN if f not in ('h_mu_wait', 'h_cv_wait')] + \
+    ['mu_w_w_R4', 'mu_r_r_w_R3', 'cv_timed_siginside_R3', 'cv_reader_siginside_R3', 'cv_plain_sigreader_reader_R3', 'mw_ra_seta_R3', 'mw_btimed_setb_R3']
 
 
 def scenarios(ctx):
     S = scen.all_scenarios()
-    names = THOROUGH if ctx.tier == 'thorough' else QUICK
+    names = QUICK + (THOROUGH if ctx.tier == 'thorough' else [])
     return {n: S[n] for n in names}
 
 
@@ -25,4 +26,18 @@ def confirm(ctx, job, failure):
 
 
 def info(ctx):
-    return {'engine': 'E2+E3 seqcc', 'explanation': 'see DESIGN.md'}
+    from checks import e3check
+    d = e3check.make('C01', QUICK, THOROUGH, EXPL, FUNCS, OUTSIDE)[3](ctx)
+    return d
+
+
+EXPL = ('(a) Thread-modular step check (harness/e3/e2_word.c, any number of threads, any history): one thread runs each real acquisition / release / wait / signal function while the environment '
+        'replaces the mutex word before every atomic access by any value the guarantee allows the others (<= 3 changes per call) and wakes the thread when it sleeps; every write of the function to the word '
+        'is checked against the guarantee = C01 on the word (writer bit added only to a free word by a thread holding nothing or by the converting last reader, removed only by the writer; reader count +-1 only '
+        'without writer / by a reader; spinlock released only by its holder; no other lock-bit change, so a stale word written back is caught); each function must return holding exactly what its contract says. '
+        'One context, all loops unrolled U times (U=2 quick, 3 thorough). '
+        '(b) Bounded interleavings (E3) with shadow occupancy counters asserted after every acquire and before every release, including the implicit re-acquisition on return from cv / mu waits with deadlines.')
+FUNCS = ['nsync_mu_lock', 'nsync_mu_rlock', 'nsync_mu_trylock', 'nsync_mu_rtrylock', 'nsync_mu_unlock', 'nsync_mu_runlock', 'nsync_mu_unlock_without_wakeup', 'nsync_mu_lock_slow_',
+         'nsync_mu_unlock_slow_', 'nsync_mu_wait_with_deadline', 'mu_try_acquire_after_timeout_or_cancel', 'nsync_cv_wait_with_deadline_generic', 'nsync_cv_signal', 'nsync_cv_broadcast', 'wake_waiters']
+OUTSIDE = ['nsync_wait_n re-acquisition (it calls the caller-supplied lock function: covered as nsync_mu_lock)', 'environment changes beyond 3 per call in the step check',
+           'queue changes by the environment while the function does not hold the spinlock (the queue of <= 2 waiters is fixed per call)']
